@@ -13,6 +13,7 @@ import random
 from scen import Scn
 import scenario_common as sc
 import mcrapid
+import forced
 
 SUBSETS = [[], ["INVOKE"], ["SHUTDOWN"], ["INVOKE", "SHUTDOWN"]]
 BOUND = None  # all event kinds except telemetry are bound (see scenario_common / traceprep)
@@ -74,6 +75,7 @@ def run(ctx):
     ctx.assumptions += sc.ASSUME
     scs = scenarios(ctx)
     sc.run_families(ctx, scs, "fanout")
+    sc.run_families(ctx, forced.scenarios('c04', ('dispatch-held',)), "forced-schedule")
     ctx.coverage["exhaustive"] = False
 
 
